@@ -7,6 +7,7 @@ toolchain go1.23.5
 require (
 	github.com/Flowpack/prunner v0.0.0
 	github.com/apex/log v1.9.0
+	github.com/go-chi/chi/v5 v5.0.7
 	github.com/go-chi/jwtauth/v5 v5.0.2
 	github.com/gofrs/uuid v4.2.0+incompatible
 	github.com/taskctl/taskctl v1.3.1-0.20210426182424-d8747985c906
@@ -17,7 +18,6 @@ require (
 	github.com/briandowns/spinner v1.18.1 // indirect
 	github.com/fatih/color v1.13.0 // indirect
 	github.com/friendsofgo/errors v0.9.2 // indirect
-	github.com/go-chi/chi/v5 v5.0.7 // indirect
 	github.com/json-iterator/go v1.1.12 // indirect
 	github.com/lestrrat-go/backoff/v2 v2.0.8 // indirect
 	github.com/lestrrat-go/blackmagic v1.0.1 // indirect
